@@ -269,7 +269,11 @@ func (fr *frame) runFrame() {
 		// loop bound: count back edges
 		if fr.block != nil && fr.prev != nil && fr.block.Index <= fr.prev.Index {
 			fr.loops[fr.block]++
-			if fr.loops[fr.block] > fr.r.eng.MaxLoop {
+			lim := fr.r.eng.MaxLoop
+			if lb, ok := fr.r.eng.LoopBounds[fr.fn.String()]; ok {
+				lim = lb
+			}
+			if fr.loops[fr.block] > lim {
 				panic(pathEnd{kind: "unwind", msg: fmt.Sprintf("loop bound exceeded in %s block %d", fr.fn, fr.block.Index)})
 			}
 		}
